@@ -90,6 +90,18 @@ def getitem_checks(run, repo, prel):
         n = parallel.parallel_args(run, g)
         item = g.posparams[1]
         from ..names import deref
+        # the index must reach the arrays as given: numpy decides between element, slice, boolean-mask and index-array
+        # selection from its type, so an integer conversion turns a boolean mask into the indices 0/1
+        for st2, _ in walk(g.node):
+            if isinstance(st2, ast.Assign) and any(isinstance(t, ast.Name) and t.id == item for t in ast.walk(st2.targets[0])):
+                txt = norm(st2.value)
+                intconv = any(k.arg == 'dtype' and ('int' in norm(k.value)) for c2 in ast.walk(st2.value) if isinstance(c2, ast.Call) for k in c2.keywords) \
+                    or '.astype(int' in txt.replace(' ', '') or '.astype(numpy.int' in txt.replace(' ', '')
+                if intconv:
+                    run.violation('R13.getitem', g, st2, 'the index is converted to integers before use: a boolean mask then selects elements 0 and 1 '
+                                  'repeatedly instead of the masked sub-list')
+                else:
+                    run.undecided('R13.getitem', g, st2, 'the index parameter is rebound before it is used')
         for c in ast.walk(g.node):
             if isinstance(c, ast.Call) and isinstance(c.func, ast.Name) and c.func.id in ('Pauli', 'PauliList', 'PauliMonomial', 'PauliPolynomial'):
                 args = [norm(deref(g, a)).replace(' ', '') for a in c.args]
